@@ -511,6 +511,8 @@ def sphere_recipes(ctx):
     return fam, single
 
 
+MEMBRANE_SEEDS = [1094, 1755, 2886, 9389, 19956]        # found by the thorough tier / a 40000-seed campaign
+
 MC_MODELS = [            # (N1,N2,N3, S1,S2,S3, VMax, K, PadVal), label, tiers
     ((4, 4, 4, 1, 2, 3, 1, 0, 0), "4x4x4 grid, all 256 binary cubes padded low, spacing (1,2,3)", ("quick", "thorough")),
     ((4, 4, 4, 1, 1, 1, 1, 0, 1), "4x4x4 grid, all 256 binary cubes padded high", ("thorough",)),
@@ -525,6 +527,8 @@ def run(ctx, explain=False):
     light = cube_recipes(ctx)
     ncube = len(light)
     light += [{"kind": "mc", "gen": "blobs", "seed": ctx.seed * 100003 + i} for i in range(ctx.pick(200, 3000))]
+    # regression inputs: random grids on which the kernel emits membranes (finding C06-lewiner-membrane)
+    light += [{"kind": "mc", "gen": "blobs", "seed": s} for s in MEMBRANE_SEEDS]
     fam, single = sphere_recipes(ctx)
     light += single
     heavy = fam + surface_recipes(ctx)
@@ -567,7 +571,7 @@ def run(ctx, explain=False):
                 "non-trivial = the mesh has at least one face" % (
                     ncube, "all 255 non-empty corner sign patterns x levels 0.5/1.5/2.5 with seeded value liftings"
                     if ctx.quick else "every one of the 4^8 fields with values 0..3 x every level 0.5/1.5/2.5 that it reaches",
-                    len(light) - ncube - len(single), len(single), nsurf,
+                    len(light) - ncube - len(single) - len(MEMBRANE_SEEDS), len(single), nsurf,
                     [s / 100.0 for s in ctx.pick([100, 50, 30], [100, 50, 30, 20])]))
     ctx.explanation = ("model checking: every assignment of the listed values to the 8 free corners, both gradient "
                        "directions, complete sweep (all reachable states). trace validation: %s; the other "
